@@ -91,7 +91,8 @@ fn rate(seed: u64, n: u64) {
     let mut hit = 0;
     let mut tot = Stats::default();
     for i in 0..n {
-        let r = under_sim(seed ^ (i.wrapping_mul(0x9E37_79B9_7F4A_7C15)), || bbtarget::block_queue(400, 64, 40));
+        let which = std::env::var("RATE_PROG").unwrap_or_default();
+        let r = under_sim(seed ^ (i.wrapping_mul(0x9E37_79B9_7F4A_7C15)), || if which == "two_counters" { bbtarget::two_counters(300, 64, 40) } else { bbtarget::block_queue(400, 64, 40) });
         if !r.value {
             hit += 1;
         }
